@@ -1132,6 +1132,62 @@ theorem efjc_distance_hasDerivAt (f Lp Lc St kT : ℝ) (hf : 0 < f) (hLp : 0 < L
   efjc_distance_hasDerivAt_aux f Lp Lc St kT hf hLp hkT hSt hx
 example : (0:ℝ) < 5 ∧ (5:ℝ) * (2 * 1.4 / 4.11) < 300 := by norm_num
 
+/-! ## Deepening round D: the constructors ESTABLISH the hypotheses of the routing theorems
+
+  `M.WF` (Lemmas/C13b): every built-in leaf of the tree has distinct parameter names (pylake: `<name>/Lp, <name>/Lc, …, kT`).
+  `composite_indices_established`, `offset_indices_established`, `fit_indices_established` (Lemmas/C13b) show that the
+  index lists `lhs_params / rhs_params / model_params / p_indices` computed by `list.index` exist, are in range and
+  duplicate-free; here they are composed with the routing theorems into statements about `M.jac` / `jacRowS` themselves. -/
+
+
+/-- `CompositeModel.jacobian`, end to end: for sub-models with distinct leaf parameter names the index lists the
+    constructor computes exist and are duplicate-free (`composite_indices_established`), so the hypotheses of
+    `composite_jacobian` hold and entry `k` of the composite Jacobian IS the sum of what the two sides route to `k`. -/
+theorem composite_jacobian_end_to_end (l r : M) (hl : l.WF) (hr : r.WF) (x : ℝ) (p sols : List ℝ) :
+    ∃ li ri, subIdx (M.add l r).params l.params = some li ∧ subIdx (M.add l r).params r.params = some ri ∧
+      ∀ pl pr jl jr, pick li p = some pl → pick ri p = some pr →
+        l.jac x pl (sols.take l.countInv) = some jl → r.jac x pr (sols.drop l.countInv) = some jr →
+        ∃ J, (M.add l r).jac x p sols = some J ∧
+          ∀ k, k < p.length → J[k]? = some (routedSum li jl k + routedSum ri jr k) := by
+  obtain ⟨li, ri, h1, h2, _, _, h5, h6, _, _⟩ := composite_indices_established l r hl hr
+  refine ⟨li, ri, h1, h2, fun pl pr jl jr e1 e2 e3 e4 => ?_⟩
+  refine ⟨_, ?_, fun k hk => composite_jacobian p li ri jl jr h5 h6 k hk⟩
+  rw [composite_jacobian_unfold, h1, h2]
+  simp only [Option.bind_eq_bind, Option.bind_some, e1, e2, e3, e4]
+example : (M.base .odijkD ["a/Lp", "a/Lc", "a/St", "kT"]).WF ∧ (M.base .offset ["b/offset"]).WF := by
+  constructor <;> (unfold M.WF; decide)
+
+/-- `SubtractIndependentOffset.jacobian`, end to end (the hypotheses of `offset_jacobian` are established) -/
+theorem offset_jacobian_end_to_end (name : String) (m : M) (hm : m.WF) (x : ℝ) (p sols : List ℝ)
+    (hp : p.length = (M.off name m).params.length) :
+    ∃ mi oi, subIdx (M.off name m).params m.params = some mi ∧ indexOf (M.off name m).params name = some oi ∧
+      ∃ o, p[oi]? = some o ∧ ∀ pm jm dm, pick mi p = some pm → m.jac (x - o) pm sols = some jm →
+        m.der (x - o) pm sols = some dm →
+        ∃ J, (M.off name m).jac x p sols = some J ∧
+          ∀ k, k < p.length → J[k]? = some (if k = oi then -dm else routedSum mi jm k) := by
+  obtain ⟨mi, oi, h1, h2, _, h4, h5, _⟩ := offset_indices_established name m hm
+  have hoi : oi < p.length := hp ▸ h5
+  refine ⟨mi, oi, h1, h2, p[oi], List.getElem?_eq_getElem hoi, fun pm jm dm e1 e2 e3 => ?_⟩
+  refine ⟨_, ?_, fun k hk => offset_jacobian p mi jm oi dm h4 hoi k hk⟩
+  rw [offset_jacobian_unfold, h1, h2]
+  simp only [Option.bind_eq_bind, Option.bind_some, List.getElem?_eq_getElem hoi, e1, e2, e3]
+example : (M.base .odijkD ["a/Lp", "a/Lc", "a/St", "kT"]).WF := by unfold M.WF; decide
+
+/-- `Model._calculate_jacobian`, end to end: for a data set that maps its parameters to DISTINCT global names (all of
+    them collected by `_build_fit`) the row the code computes (buffered `-=`) equals the accumulating row, whose
+    column `k` is `−Σ` of the sensitivities routed to `k` (`fit_jacobian_assembly`). -/
+theorem fit_row_code_eq_accumulating (m : M) (trans : List (Tr ℝ)) (names : List String) (g : List ℝ) (x : ℝ)
+    (sols : List ℝ) (hsub : ∀ n ∈ trans.filterMap Tr.name?, n ∈ names) (hnd : (trans.filterMap Tr.name?).Nodup) :
+    jacRowS false m trans names g x sols = jacRowS true m trans names g x sols := by
+  have h := (fit_indices_established trans names hsub).2.2 hnd
+  rw [fit_row_sols_unfold, fit_row_sols_unfold]
+  simp only [Bool.false_eq_true, if_false, if_true, scatterOp_eq_scatterAcc _ _ _ _ h]
+example : ([⟨"s:a", .inl "a"⟩, ⟨"c:1", .inr 1⟩, ⟨"s:b", .inl "b"⟩] : List (Tr ℝ)).filterMap Tr.name? = ["a", "b"] ∧
+    ["a", "b"].Nodup := by
+  constructor
+  · rfl
+  · decide
+
 /-! ## Deepening round D: eFJC and tWLC Jacobian rows w.r.t. the parameters -/
 
 /-- the four rows of `efjc_distance_jac` are `∂/∂L_p, ∂/∂L_c, ∂/∂S_t, ∂/∂kT` of `efjc_distance` below the code's
